@@ -52,19 +52,19 @@ macro_rules! flush_law {
             kani::assume(q < nsub);
             let t: usize = kani::any();
             kani::assume(t < LEN);
+            kani::cover!(LEN == 1 || (span < MAX_IN_BLOCK_DISTACE && span + 2 * (LEN - 1) >= MAX_IN_BLOCK_DISTACE), "dense span next to the threshold");
+            kani::cover!(LEN == 1 || span == MAX_IN_BLOCK_DISTACE, "sparse span exactly at the threshold");
             if span < MAX_IN_BLOCK_DISTACE {
                 // dense: first position, 16-bit distances of every 32nd position
                 assert!(block_inventory[2] == pos[0] as i64);
                 assert!(subblock_inventory[2 + q] as usize == pos[32 * q] - pos[0]);
                 assert!(overflow_positions.len() == 2);
-                kani::cover!(span == MAX_IN_BLOCK_DISTACE - 1, "largest dense span");
             } else {
                 // sparse: negative pointer to LEN explicit positions
                 assert!(block_inventory[2] == -3);
                 assert!(overflow_positions.len() == 2 + LEN);
                 assert!(overflow_positions[2 + t] == pos[t]);
                 assert!(overflow_positions[0] == 1 && overflow_positions[1] == 70_000);
-                kani::cover!(span == MAX_IN_BLOCK_DISTACE, "smallest sparse span");
             }
             core::mem::forget(block_inventory);
             core::mem::forget(subblock_inventory);
@@ -115,12 +115,13 @@ fn count_range<const BIT: bool>(words: &[u64; W], from: usize, to: usize) -> usi
 }
 
 macro_rules! select_stage {
-    ($name:ident, $bit:expr, $s0:expr) => {
+    ($name:ident, $bit:expr, $s0:expr, $l:expr) => {
         #[kani::proof]
         #[kani::unwind(20)]
+        #[kani::stub(crate::utils::select_in_word, crate::utils::verif_utils_stubs::select_in_word_contract)]
         fn $name() {
-            let (words, n) = any_words::<2>();
-            let bv = mk_imm::<2>(&words, n);
+            let (words, n) = any_words::<$l>();
+            let bv = mk_imm::<$l>(&words, n);
             // two groups; entries arbitrary, constrained below only where the query touches them
             let blocks: [i64; 2] = kani::any();
             let subs: [u16; 64] = kani::any();
@@ -158,7 +159,7 @@ macro_rules! select_stage {
                     assert!(p >= p0 && p < n);
                     assert!(bit(&words, p) == $bit);
                     assert!(count_range::<$bit>(&words, p0, p) == rem);
-                    kani::cover!(rem == 31 && (p >> 6) > (p0 >> 6) + 1, "scan crosses more than one word");
+                    kani::cover!(rem > 0 && (p >> 6) > (p0 >> 6) + 1, "scan crosses more than one word");
                     kani::cover!(rem == 0, "sub-block head");
                     kani::cover!(p0 % 64 == 63 && rem > 0, "head on the last bit of a word");
                     kani::cover!(i >= 1024, "dense second group");
@@ -169,14 +170,22 @@ macro_rules! select_stage {
         }
     };
 }
-// @h props=C07,C04:t,C10 tier=quick family=S mem=5 timeout=2400 role=darray.select1.stage
-// @bound select on a 513..=1024-bit vector with symbolic contents and assembled inventories of two groups (each dense or sparse) whose touched entries satisfy the layout law; every k of the machine range
-// @funcs DArray::select, BitVector::get_word, utils::select_in_word
-select_stage!(c07_select1_stage, true, false);
-// @h props=C07,C04:t,C10 tier=quick family=S mem=5 timeout=2400 role=darray.select0.stage
+// @h props=C07,C04:t,C10 tier=quick family=S mem=6 timeout=2400 stubs=utils::select_in_word->contract(c17_select_in_word_law) role=darray.select1.stage
+// @bound select on a 1..=512-bit vector with symbolic contents and assembled inventories of two groups (each dense or sparse) whose touched entries satisfy the layout law; every k of the machine range
+// @funcs DArray::select, BitVector::get_word
+select_stage!(c07_select1_stage, true, false, 1);
+// @h props=C07,C04:t,C10 tier=quick family=S mem=6 timeout=2400 stubs=utils::select_in_word->contract(c17_select_in_word_law) role=darray.select0.stage
 // @bound same for zeros (negated words, padding after the last bit never reported)
-// @funcs DArray::select, BitVector::get_word, utils::select_in_word
-select_stage!(c07_select0_stage, false, true);
+// @funcs DArray::select, BitVector::get_word
+select_stage!(c07_select0_stage, false, true, 1);
+// @h props=C07,C10:t tier=thorough family=S mem=10 timeout=3600 stubs=utils::select_in_word->contract(c17_select_in_word_law) role=darray.select1.stage
+// @bound select on a 513..=1024-bit vector (two lines)
+// @funcs DArray::select, BitVector::get_word
+select_stage!(c07_select1_stage_l2, true, false, 2);
+// @h props=C07,C10:t tier=thorough family=S mem=10 timeout=3600 stubs=utils::select_in_word->contract(c17_select_in_word_law) role=darray.select0.stage
+// @bound select0 on a 513..=1024-bit vector (two lines)
+// @funcs DArray::select, BitVector::get_word
+select_stage!(c07_select0_stage_l2, false, true, 2);
 
 // ---------------------------------------------------------------------------------------------- (N)
 
@@ -184,10 +193,18 @@ macro_rules! darray_concrete {
     ($name:ident, $s0:expr, $pos:expr, $m:expr, $nbits:expr, $unw:expr) => {
         #[kani::proof]
         #[kani::unwind($unw)]
-        #[kani::stub(<[usize]>::copy_from_slice, copy_elemwise)]
+        #[kani::stub(crate::utils::select_in_word, crate::utils::verif_utils_stubs::select_in_word_contract)]
         fn $name() {
             let pos: [usize; $m] = $pos;
-            let da: DArray<$s0> = pos.iter().copied().collect();
+            // bit vector assembled from the positions (its construction through BitVectorMut is C08's business)
+            let mut words = [0u64; W];
+            let mut t = 0;
+            while t < $m {
+                words[pos[t] >> 6] |= 1u64 << (pos[t] & 63);
+                t += 1;
+            }
+            const NL: usize = ($nbits + 511) / 512;
+            let da: DArray<$s0> = DArray::new(if NL == 0 { mk_imm::<0>(&words, 0) } else if NL == 1 { mk_imm::<1>(&words, $nbits) } else { mk_imm::<2>(&words, $nbits) });
             assert!(da.len() == $nbits && da.count_ones() == $m && da.count_zeros() == $nbits - $m);
             assert!(da.is_empty() == ($nbits == 0));
             let k: usize = kani::any();
@@ -232,23 +249,23 @@ macro_rules! darray_concrete {
                     assert!(z.is_none());
                 }
             }
-            kani::cover!($m == 0 || k + 1 == $m, "last one selected");
+            kani::cover!($m == 0 || k.wrapping_add(1) == $m, "last one selected");
             kani::cover!(k == usize::MAX, "largest k");
             core::mem::forget(da);
         }
     };
 }
-// @h props=C07,C04,C19:t tier=quick family=T mem=5 timeout=1800 stubs=slice::copy_from_slice->elementwise_loop role=darray.concrete12
-// @bound DArray<true> collected from the 12 positions of the repo's own test (0..=1026, two lines... three lines), k and get index symbolic over the machine range: select1, select0, get, len, counts
-// @funcs DArray::from_iter, DArray::new, Inventories::new, Inventories::flush_block, DArray::select1, DArray::select0, DArray::get, BitVector::from_iter, BitVector::ones, BitVector::zeros
-darray_concrete!(c07_concrete12_s0, true, [0, 12, 33, 42, 55, 61, 62, 63, 128, 129, 254, 1026], 12, 1027, 1100);
-// @h props=C07,C04 tier=quick family=T mem=5 timeout=1800 stubs=slice::copy_from_slice->elementwise_loop role=darray.concrete40
+// @h props=C07,C04,C19:t tier=quick family=T mem=5 timeout=1800 stubs=utils::select_in_word->contract role=darray.concrete12
+// @bound DArray<true> collected from 12 positions derived from the repo's own test (0..=1020, two lines), bit vector assembled, DArray::new real, k and get index symbolic over the machine range: select1, select0, get, len, counts
+// @funcs DArray::new, Inventories::new, Inventories::flush_block, DArray::select1, DArray::select0, DArray::get, BitVector::from_iter, BitVector::ones, BitVector::zeros
+darray_concrete!(c07_concrete12_s0, true, [0, 12, 33, 42, 55, 61, 62, 63, 128, 129, 254, 1020], 12, 1021, 1100);
+// @h props=C07,C04 tier=quick family=T mem=5 timeout=1800 stubs=utils::select_in_word->contract role=darray.concrete40
 // @bound DArray<false> from 40 concrete positions 5*j+ (j mod 3) (more than one sub-block), symbolic k
-// @funcs DArray::from_iter, Inventories::new, Inventories::flush_block, DArray::select1
+// @funcs DArray::new, Inventories::new, Inventories::flush_block, DArray::select1
 darray_concrete!(c07_concrete40, false, [0, 6, 12, 15, 21, 27, 30, 36, 42, 45, 51, 57, 60, 66, 72, 75, 81, 87, 90, 96, 102, 105, 111, 117, 120, 126, 132, 135, 141, 147, 150, 156, 162, 165, 171, 177, 180, 186, 192, 195], 40, 196, 260);
 // @h props=C07,C04 tier=quick family=E mem=5 timeout=1200 role=darray.empty
 // @bound empty DArray<true> (no positions): every k and index; Default
-// @funcs DArray::from_iter, DArray::default, DArray::select1, DArray::select0, DArray::get
+// @funcs DArray::new, DArray::default, DArray::select1, DArray::select0, DArray::get
 darray_concrete!(c07_empty_s0, true, [], 0, 0, 10);
 
 // @h props=C07 tier=quick family=S mem=6 timeout=900 expect=fail role=darray.twin
